@@ -213,6 +213,10 @@ def build_map(s):
         if lat > 0:
             put(S_CAP, 'Drilling and completion costs per vertical production well', c1p, ec.cost_one_production_well.CurrentUnits)
             put(S_CAP, 'Drilling and completion costs per vertical injection well', c1i, ec.cost_one_injection_well.CurrentUnits)
+            if wb.has('numnonverticalsections') and float(wb.numnonverticalsections.value) > 0:
+                # the figure per section is the lateral total over the number of sections, under the total's unit label
+                put(S_CAP, 'Drilling and completion costs per non-vertical section', lat / float(wb.numnonverticalsections.value),
+                    ec.cost_lateral_section.CurrentUnits)
         elif round(c1p, 4) != round(c1i, 4) and c1i != -1:
             put(S_CAP, 'Drilling and completion costs per production well', c1p, ec.cost_one_production_well.CurrentUnits)
             put(S_CAP, 'Drilling and completion costs per injection well', c1i, ec.cost_one_injection_well.CurrentUnits)
